@@ -536,7 +536,10 @@ def Mon.step (m : Mon) (w : World) (l : Label) (w' : World) : Mon × List Vio :=
               sigs := (if (w'.ev e).path.length > 1 &&
                          ((w'.ev e).results.any (fun r => !rs.any (fun x => x.bus == r.bus && x.hid == r.hid)) ||
                           rs.any (fun x => !x.terminal)) then ["F4"] else []) ++
-                      (if m.redone.contains e then ["redispatch-done"] else []),
+                      -- (redispatch-done: a handler without a result runs on the re-dispatched event and adds one; a result
+                      -- that was terminal when the event was seen complete stays what it was)
+                      (if m.redone.contains e && rs.all (fun x => !x.terminal || (w'.ev e).results.contains x)
+                       then ["redispatch-done"] else []),
               detail := s!"event {e} changed after it was complete" } : Vio)
   -- a changed event is watched again from its next completion on
   let snaps := snaps0.filter fun (e, rs) => (w'.ev e).results == rs
@@ -570,6 +573,17 @@ def Mon.step (m : Mon) (w : World) (l : Label) (w' : World) : Mon × List Vio :=
          else []
        | none => [])
     | none => []
+  -- ... and it suspends (`sleep(0)`) only after a pass over the queues that found every one of them empty
+  let yieldV : List Vio := match l with
+    | .pollYield i =>
+      (match awaitedOf (w.inst i).st with
+       | some c =>
+         if !(w.ev c).signal && !(w.inst i).cancelling && (buses w).any (fun b => !(w.bus b).queue.isEmpty) then
+           [{ prop := "C05", clause := "notImmediate", sigs := [],
+              detail := s!"instance {i} awaits event {c} with events queued, but it suspends instead of taking one" }]
+         else []
+       | none => [])
+    | _ => []
   let scanning : Option IId := match l with
     | .awaitBegin i _ => some i
     | .peEnd (.inst i) _ _ => some i
@@ -592,7 +606,7 @@ def Mon.step (m : Mon) (w : World) (l : Label) (w' : World) : Mon × List Vio :=
            detail := s!"instance {i} still acts after its timeout / cancellation was recorded as its result" }]
       else []
     | none => []
-  ({ m with snaps := snaps ++ fresh, scanning := scanning }, vs ++ changed ++ scanV ++ zombieV)
+  ({ m with snaps := snaps ++ fresh, scanning := scanning }, vs ++ changed ++ scanV ++ yieldV ++ zombieV)
 
 /-- is the model quiescent: nothing queued on a live bus, nothing in hand, no open activation, no live instance -/
 def isRest (w : World) : Bool :=
